@@ -23,8 +23,10 @@ TRUSTED = [
     "atomicity: each os_atomic_* operation is one step; sequentially consistent interleaving (memory-order strength is compared "
     "with the source in the site lists only)",
     "the notify list is abstracted to the sequence of continuations exchanged into dg_notify_tail since the last detach; the "
-    "linked-but-not-yet-visible window of the two-step MPSC push only delays the detaching thread (it spins in os_mpsc_get_head / "
-    "get_next) and is over-approximated by letting it proceed; submission of a continuation = the exchange on the target queue's "
+    "linked-but-not-yet-visible window of the two-step MPSC push only delays the detaching thread: the spin in os_mpsc_get_head is in "
+    "the model as a self-loop that is always enabled (PSnapHead accepts a NULL load and stays; the head value is not state), the spin "
+    "in get_next is not a step at all; so NO liveness is proved (the model has fair infinite runs that never submit a registered "
+    "notification); C07_no_stuck is per-thread deadlock freedom only; submission of a continuation = the exchange on the target queue's "
     "dq_items_tail",
     "kernel: futex_wait may return spuriously with any result except that a wait without timeout is never told ETIMEDOUT (Group.geffect at PSleep), FUTEX_WAKE wakes every sleeper on dg_gen; scheduler fairness for the liveness "
     "clauses (the theorems show that a wake-up / a detaching thread is always pending, not when it is scheduled); real time is not "
@@ -33,7 +35,7 @@ TRUSTED = [
     "clients keep enter/leave balanced and below 2^30 nested enters (the library traps otherwise; the model has no successor there)",
 ]
 ASSUMPTIONS = ["fewer than 2^32 generations elapse between a waiter's read of dg_state and its futex wait (Group.reach_nw, explicit hypothesis of C07_none_left_behind / C07_sleeper_has_waker; satisfiable: C07_fresh_satisfiable)",
-               "fair scheduling for the liveness clauses"]
+               "the liveness reading (every registered notification / sleeping waiter is eventually served) additionally needs fair scheduling AND termination of the head / do_next spins and of the retry loops, none of which is proved"]
 
 NQ_BASE = 100000
 OFF_NQ = 24
